@@ -756,3 +756,49 @@ func TestBlockedByAnotherModule(t *testing.T) {
 		}
 	})
 }
+
+// TestTwoPacingRules: two pacing (throttling) rules on one resource meter two different arguments. A single caller issues
+// requests with the same two values and really sleeps every wait it is asked for (the clock advances while it sleeps): the
+// instants at which it is released are, for each rule, at least batch*duration/threshold apart - the waits of the two
+// rules are each served in full.
+func TestTwoPacingRules(t *testing.T) {
+	hx.Check(t, hx.N{Quick: 1500, Thorough: 15000}, func(t *rapid.T, c *hx.Case) {
+		hx.Reset(hx.Epoch + uint64(rapid.IntRange(0, 999).Draw(t, "t0")))
+		hx.C.Advance = true
+		defer func() { hx.C.Advance = false }()
+		ts := rapid.Permutation([]int64{1, 2, 5, 10, 20}).Draw(t, "thresholds")
+		mk := func(id string, idx int, T int64) *hotspot.Rule {
+			return &hotspot.Rule{ID: id, Resource: "h", MetricType: hotspot.QPS, ControlBehavior: hotspot.Throttling, ParamIndex: idx, Threshold: T, DurationInSec: 1, MaxQueueingTimeMs: 3600000, SpecificItems: map[interface{}]int64{}}
+		}
+		rules := []*hotspot.Rule{mk("A", 0, ts[0]), mk("B", 1, ts[1])}
+		if rapid.Bool().Draw(t, "thirdRule") {
+			rules = append(rules, mk("C", 2, ts[2]))
+		}
+		if _, err := hotspot.LoadRules(rules); err != nil || len(hotspot.GetRulesOfResource("h")) != len(rules) {
+			t.Fatalf("load: %v", err)
+		}
+		need := uint64(0)
+		for _, r := range rules {
+			if n := uint64(1000 / r.Threshold); n > need {
+				need = n
+			}
+		}
+		var released []uint64
+		for i, n := 0, rapid.IntRange(2, 6).Draw(t, "n"); i < n; i++ {
+			if rapid.IntRange(0, 3).Draw(t, "pause") == 0 {
+				hx.C.AddMs(uint64(rapid.SampledFrom([]int{1, 50, 400}).Draw(t, "dt")))
+			}
+			e, blk := sentinel.Entry("h", sentinel.WithArgs("x", "y", "z"))
+			if blk != nil {
+				t.Fatalf("request %d rejected (queueing limit one hour): %v", i, blk)
+			}
+			e.Exit()
+			released = append(released, hx.C.Ms())
+			if i > 0 && released[i]-released[i-1] < need {
+				t.Fatalf("pacing rules %v/s on three arguments of one resource: request %d was released %d ms after request %d, the slowest rule spaces its value's requests %d ms apart (release instants +%v): a wait was cut short by what the caller had already slept for another rule", ts[:len(rules)], i, released[i]-released[i-1], i-1, need, released)
+			}
+		}
+		c.Op("thresholds %v: released at %v (need %d ms)", ts[:len(rules)], released, need)
+		c.NonTrivial()
+	})
+}
